@@ -25,7 +25,7 @@ class StubDUL(object):
     preload_on_empty = None  # on_empty callback for the next stub created
 
     def __init__(self, store_in_file=None, get_file_cb=None, dul_socket=None,
-                 max_pdu_length=65536):
+                 max_pdu_length=65536, *args, **kwargs):
         self.store_in_file = store_in_file
         self.get_file_cb = get_file_cb
         self.dul_socket = dul_socket
